@@ -740,6 +740,24 @@ def run_union_valid(run):
         st = run.impl.get("validate %s %s" % (t[1], t[2]))
         if r[0] == "ok" and st is not None and st[0] != "ok":
             cx.fail("val", "a value the type refuses is accepted by validation", {"type": t[1], "value_hex": t[2], "got": r, "store": st, "law": "validate_implies_store"})
+    # a leafref on its own: compare / sort / LYB / dup are the callbacks of the target's type, reached through the leafref plug-in
+    from checks import valcomp
+    cases, pairs, accepted = [], {}, {}
+    for d in ("lref(i8)", "lref(str:0..3)", "lrefr(d1)", "lref(%s)" % E1):
+        acc = [s for s in VALID_POOL + [b"-128", b"0.5", b"b", b"ab"] if (run.impl.get("validate %s %s" % (d, hx(s))) or ["?"])[0] == "ok"]
+        if not acc:
+            run.diff(["validate %s %s" % (d, hx(s)) for s in VALID_POOL + [b"-128", b"0.5", b"b", b"ab"]])
+            acc = [s for s in VALID_POOL + [b"-128", b"0.5", b"b", b"ab"] if run.get("validate %s %s" % (d, hx(s)))[0] == "ok"]
+        accepted[d] = acc
+        pr = [(a, b) for a in acc for b in acc][:cx.n(40, 200)]
+        pairs[d] = (acc[:6], pr)
+        for a, b in pr:
+            cases += ["cmp %s %s %s" % (d, hx(a), hx(b)), "cmp %s %s %s" % (d, hx(b), hx(a))]
+        for a in acc[:6]:
+            c = unhex(run.get("validate %s %s" % (d, hx(a)))[1])
+            cases += ["lybrt %s %s" % (d, hx(a)), "validate %s %s" % (d, hx(c)), "cmp %s %s %s" % (d, hx(a), hx(c))]
+    run.diff(cases)
+    valcomp.laws_value(run, accepted, pairs)
     cx.rule("val: union / leafref validation (lyd_validate_module): %d types with require-instance leafref members x %d values x up to 6 sets of target instances; "
             "reply = canonical value and the member that holds the value AFTER validation" % (len(VALID_UNIONS), len(VALID_POOL)))
 
